@@ -26,4 +26,12 @@ theorem read_step_handovers :
     (Gen.readLoopSyncCalls.filter fun c => c == "sendServerMsgCtx" || c == "sendCtx" || c == "send <-" || c == "recv <-")
       = ["sendServerMsgCtx", "sendCtx"] := by decide
 
+/-- the functions the gate calls, in source order: the frame is read, tested (`utf8.Valid`, `json.Valid`), parsed,
+    validated, verified and handed over — nothing transforms the payload in between (a trimming, case-folding or
+    re-encoding step would appear here) -/
+theorem read_step_calls :
+    Gen.readLoopSyncCalls.filter (fun c => c != "relay.logWarn" && c != "fmt.Errorf") =
+      ["limiter.Wait", "conn.Read", "NewServerNoticeMsgf", "sendServerMsgCtx", "utf8.Valid", "json.Valid",
+       "ParseClientMsg", "ValidClientMsg", "msg.Event.Verify", "NewServerNoticeMsg", "sendCtx"] := by decide
+
 end Moc.C12
